@@ -485,7 +485,7 @@ def run(ctx):
                          "non-trivial = document with a container validated against a schema with a union")
     ctx.assumptions += ["decided by comparison with a python transcription of the statement's set semantics (differential), no Coq model of the multi-leaf validator: partial"]
     cases = []
-    n = 1200 if quick else 20000
+    n = 4000 if quick else 20000
     for _ in range(n):
         k = rng.randint(2, 6)
         names, env = gen_types(rng, k)
@@ -503,7 +503,7 @@ def run(ctx):
         docs.append(J.rand_doc(rng, 2))
         cases.append((names, env, root, docs))
     # overlapping alternatives inside arrays (both alternatives accept the element)
-    for _ in range(200 if quick else 3000):
+    for _ in range(800 if quick else 3000):
         a = ("int", rng.choice([None, 0]), None, False)
         b = ("int", None, rng.choice([None, 10, 100]), False)
         env = {"@A": a, "@B": b, "@S": ("str", False)}
@@ -514,9 +514,9 @@ def run(ctx):
             xs = [rng.choice([("i", "1"), ("i", "3"), ("s", '"x"'), ("b", "true"), ("i", "-5"), ("i", "500")]) for _ in range(rng.randint(0, 4))]
             docs.append(("a", xs) if root[0] == "arr" else ("o", [("l", ("a", xs))]))
         cases.append((["@A", "@B", "@S"], env, root, docs))
-    cases += allof_stream(rng, 200 if quick else 3000)
+    cases += allof_stream(rng, 800 if quick else 3000)
     # additionalProperties: several unnamed keys in one object, valid and invalid values in every order (each unnamed key is decided on its own)
-    for _ in range(300 if quick else 5000):
+    for _ in range(1200 if quick else 5000):
         env = {"@Id": ("obj", [("id", False, ("int", None, None, False))], None, []), "@N": ("int", 0, 9, False), "@S": ("str", False),
                "@U": ("ref", ["@N", "@Id"], False), "@L": ("arr", [("ref", ["@N"], False)])}
         names = ["@Id", "@N", "@S", "@U", "@L"]
@@ -534,7 +534,7 @@ def run(ctx):
             o = ("o", ms)
             docs.append(o if root is inner else (("o", [("w", o)]) if root[0] == "obj" else ("a", [o, o] if rng.random() < 0.3 else [o])))
         cases.append((names, env, root, docs))
-    cases += rule_form_cases(rng, 300 if quick else 6000)
+    cases += rule_form_cases(rng, 1500 if quick else 6000)
     # corpus: minimised replays of repaired defects run first (a regression is an ordinary violation)
     import os
     cdir = os.path.join(vc.ROOT, "corpus", "C03")
